@@ -24,6 +24,7 @@ package coinswap
 import (
 	"fmt"
 	"math/big"
+	"os"
 	"sort"
 	"strconv"
 	"strings"
@@ -284,6 +285,11 @@ func (r *R) Reset(ctx sdk.Context, line string) (sdk.Context, string) {
 			hx.Fail("account %s is blocked in the application", sym)
 		}
 	}
+	// The coinswap module account is created lazily by the first mint/burn; a chain that has ever
+	// created a pool has it.  (If a plain bank send reaches that address first, the SDK creates a
+	// base account there and every later MintCoins panics "account is not a module account" - an
+	// application-wiring hazard outside C01/C02, so histories start with the account in place.)
+	r.env.App.AccountKeeper.GetModuleAccount(ctx, cstypes.ModuleName)
 	for _, e := range strings.Split(hx.Undash(a["fund"]), ",") {
 		if e == "" {
 			continue
@@ -361,6 +367,9 @@ func (r *R) Exec(ctx sdk.Context, line string) (sdk.Context, string) {
 		hx.Fail("unknown op %q", line)
 	}
 	out := r.env.Deliver(ctx, msg)
+	if os.Getenv("VERIF_DEBUG") != "" && out.Class != hx.OK {
+		fmt.Fprintf(os.Stderr, "debug: %s -> %s %s\n", line, out.Class, out.Err)
+	}
 	e, resp := "-", "-"
 	switch out.Class {
 	case hx.Rej:
